@@ -181,6 +181,32 @@ impl<'a> Gen<'a> {
 impl<'a> Gen<'a> {
     /// three binders around one body over {free names, Y, X, Z}: K1 Y # K2 X # K3 Z # (g) [op Z], every kind combination;
     /// the body is generated with all three names positive, so every level is monotone
+    /// two binders: K1 X # lit op (K2 Y # (Q v # X [op lit]) op Y) -- the inner fixed point is re-evaluated for every outer
+    /// iterate, its body ranges over the outer value through a quantifier and supports itself
+    fn template2(&mut self) -> String {
+        let free: Vec<&'static str> = if self.r.gen_bool(0.3) { vec!["a", "b"] } else { vec!["a"] };
+        let kws = [["lfp", "mu"], ["gfp", "nu"]];
+        let (k1, k2) = (self.r.gen_range(0..2), self.r.gen_range(0..2));
+        let (kw1, kw2) = (kws[k1][self.r.gen_range(0..2)], kws[k2][self.r.gen_range(0..2)]);
+        let lit = |s: &mut Self| { let n = free[s.r.gen_range(0..free.len())]; if s.r.gen_bool(0.2) { format!("-{}", n) } else { n.to_string() } };
+        let q = self.pick(&["forall", "exists", "all", "any"]);
+        let v = free[self.r.gen_range(0..free.len())];
+        let tail = if self.r.gen_bool(0.3) { format!(" {} {}", self.pick(&["&", "|"]), lit(self)) } else { String::new() };
+        let inner_body = format!("({} {} # X{})", q, v, tail);
+        let inner = match self.r.gen_range(0..4) {
+            0 => format!("({} Y # {})", kw2, inner_body),
+            1 => format!("({} Y # {} & Y)", kw2, inner_body),
+            _ => format!("({} Y # {} | Y)", kw2, inner_body),
+        };
+        let l1 = lit(self);
+        match self.r.gen_range(0..4) {
+            0 => format!("{} X # {}", kw1, inner),
+            1 => format!("{} X # {} | {}", kw1, l1, inner),
+            2 => format!("{} X # -(-({})) & {}", kw1, inner, l1),
+            _ => format!("{} X # {} & {}", kw1, l1, inner),
+        }
+    }
+
     fn template3(&mut self) -> String {
         let free: Vec<&'static str> = if self.r.gen_bool(0.3) { vec!["a", "b"] } else { vec!["b"] };
         let bound = ["Y", "X", "Z"];
@@ -319,7 +345,7 @@ pub fn record(args: &[String]) -> Value {
             if nest > 0 {
                 g.nested(nest, &Scope { fix: HashMap::new() })
             } else if tries % 4 == 2 {
-                g.template3()
+                if tries % 8 == 2 { g.template2() } else { g.template3() }
             } else {
                 g.formula(depth, &Scope { fix: HashMap::new() })
             }
